@@ -202,13 +202,15 @@ def gen_findns(rng):
     tbl = []
     for _ in range(rng.randint(0, 5)):
         r = rng.random()
-        if r < 0.6 and frame:
+        if r < 0.15:
+            f = []                                           # defined at top level
+        elif r < 0.6 and frame:
             f = frame[: rng.randint(1, len(frame))]          # an enclosing namespace
         elif r < 0.8:
             f = [rng.choice(segs) for _ in range(rng.randint(1, 3))]
         else:
             f = frame + [rng.choice(segs)]
-        tbl.append("%s~%s" % ("::".join(f), rng.choice(["Core", "Core", "Base", "A"])))
+        tbl.append("%s~%s" % ("::".join(f) or "-", rng.choice(["Core", "Core", "Base", "A"])))
     return "findns %s %s | %s" % ("::".join(frame) or "-", cls, ";".join(tbl))
 
 
